@@ -194,6 +194,34 @@ void h_set_output(void)
     VCANARY();
 }
 #endif
+#ifdef VP_DICT_OPT
+/* dictionary option (C20): an accepted setter stores a copy, the getter returns it and changes nothing, a rejected setter
+ * (allocation failure) leaves the previous dictionary in force */
+void h_opt_dict(void)
+{
+    VP_BUILD();
+    VIN(uint8_t, had_dict); VIN(uint16_t, old_id); VIN(uint8_t, to_null_dict); VIN(uint16_t, new_id);
+    struct uref *old = NULL;
+    if (had_dict & 1) { old = vs_make_uref(true, old_id, 11); VASSUME(old != NULL); VP_DICT_FIELD(upipe) = old; }
+    struct uref *nd = (to_null_dict & 1) ? NULL : vs_make_uref(true, new_id, 22);
+    VASSUME((to_null_dict & 1) || nd != NULL);
+    int live0 = gs_uref_live;
+    int r1 = VP_DICT_SET(upipe, nd);
+    struct uref *got = (struct uref *)1;
+    int r2 = VP_DICT_GET(upipe, &got);
+    struct uref *got2 = (struct uref *)1;
+    int r3 = VP_DICT_GET(upipe, &got2);
+    VPOST(r2 == UBASE_ERR_NONE && r3 == UBASE_ERR_NONE && got == got2 && got == VP_DICT_FIELD(upipe));       /* the getter reports the stored value and alters nothing */
+    if (r1 == UBASE_ERR_NONE) {
+        VPOST(nd == NULL ? got == NULL : (got != NULL && got != nd && vs_def_id(got) == new_id && got->priv == nd->priv));   /* its own copy of what was set */
+        VPOST(gs_uref_live == live0 - ((had_dict & 1) ? 1 : 0) + (nd != NULL ? 1 : 0));                                 /* previous one released once, the caller keeps its own */
+    } else {
+        VPOST(got == old && gs_uref_live == live0);                                                                         /* rejected: the previous value stays in force */
+    }
+    VPOST(spec_inv_out(upipe));
+    VCANARY();
+}
+#endif
 void h_release(void)
 {
     VP_BUILD();
